@@ -792,6 +792,18 @@ pub uninterp spec fn f64_between(x: f64, lo: f64, hi: f64) -> bool;
 pub fn f64_in(x: f64, lo: f64, hi: f64) -> (r: bool) ensures r == f64_between(x, lo, hi) { (lo..=hi).contains(&x) }
 
 // ---------------------------------------------------------------- f64 (machine floating point is NOT modelled: comparisons are uninterpreted predicates)
+/// f64 arithmetic is left uninterpreted: a rule that sums amounts and compares them with a tolerance is verified for its
+/// structure (which amounts, which tolerance, which comparison), not for the arithmetic
+pub uninterp spec fn fadd(a: f64, b: f64) -> f64;
+#[verifier::external_body] pub fn f64_add(a: f64, b: f64) -> (r: f64) ensures r == fadd(a, b) { a + b }
+pub uninterp spec fn absdiff_lt(a: f64, b: f64, k: f64) -> bool;
+pub uninterp spec fn absdiff_gt(a: f64, b: f64, k: f64) -> bool;
+pub uninterp spec fn absdiff_ge(a: f64, b: f64, k: f64) -> bool;
+pub uninterp spec fn absdiff_le(a: f64, b: f64, k: f64) -> bool;
+#[verifier::external_body] pub fn f64_absdiff_lt(a: f64, b: f64, k: f64) -> (r: bool) ensures r == absdiff_lt(a, b, k) { (a - b).abs() < k }
+#[verifier::external_body] pub fn f64_absdiff_gt(a: f64, b: f64, k: f64) -> (r: bool) ensures r == absdiff_gt(a, b, k) { (a - b).abs() > k }
+#[verifier::external_body] pub fn f64_absdiff_ge(a: f64, b: f64, k: f64) -> (r: bool) ensures r == absdiff_ge(a, b, k) { (a - b).abs() >= k }
+#[verifier::external_body] pub fn f64_absdiff_le(a: f64, b: f64, k: f64) -> (r: bool) ensures r == absdiff_le(a, b, k) { (a - b).abs() <= k }
 pub uninterp spec fn abs_lt(x: f64, bound: f64) -> bool;
 pub uninterp spec fn f64_abs_spec(x: f64) -> f64;
 pub trait VxF64: Sized { spec fn fv(self) -> f64; fn vx_abs_lt(self, bound: f64) -> (r: bool) ensures r == abs_lt(self.fv(), bound); fn vx_abs(self) -> (r: f64) ensures r == f64_abs_spec(self.fv()); }
